@@ -30,6 +30,7 @@ type oblResult struct {
 	SolverO string            `json:"solver_output,omitempty"`
 	Trivial bool              `json:"trivial,omitempty"`
 	Agreed  []string          `json:"agreed,omitempty"`
+	Bounded bool              `json:"bounded,omitempty"` // obligation of a bounded stand-in (never counted as proved)
 }
 
 type fnResult struct {
@@ -489,6 +490,7 @@ type runOpts struct {
 	budgetS   int
 	solvers   []string
 	dumpDir   string
+	thorough  bool
 	twins     bool
 	allAgree  bool
 	seed      int
